@@ -1410,7 +1410,8 @@ fn pat_elem(tokens: &[TokenTree]) -> Result<String, String> {
     } else if s == "syn::token::Bracket" {
         Ok("PatElem::BracketGroup".to_string())
     } else if let Some(kw) = s.strip_prefix("keywords::") {
-        Ok(format!("PatElem::Kw(\"{}\"@)", kw))
+        let cs: Vec<String> = kw.chars().map(|c| format!("'{}'", esc_char(c))).collect();
+        Ok(format!("PatElem::Kw(seq![{}])", cs.join(", ")))
     } else {
         Err(format!("unsupported determiner token `{}`", s))
     }
